@@ -18,7 +18,7 @@ PROPERTY = "C01"
 LEVEL = "exploration"
 TECHNIQUE = "runtime monitoring: validator verdicts on assembled data-unit histories vs an independent stream-structure state machine (R-structure + reference regex automaton); raise sites recorded"
 RULE = (
-    "case = (family, history); family = profile x header version x level pattern x frames/fields x slice grid (12 families); "
+    "case = (family, history); family = profile x header version x level pattern x frames/fields x slice grid (13 families); "
     "history = list of unit kinds (SH, SH', PIC, F0, FS(cnt,start), PAD, AUX, EOS, FOREIGN) with picture numbers and optional "
     "parse-offset perturbations; strata: exhaustive (all histories SH.u1..uL over the family alphabet, correct offsets, "
     "consecutive numbers), model-guided random walks (long accepted histories), single-edit neighbours of accepted histories, "
